@@ -119,8 +119,18 @@ ObsInvs == {[edition |-> x.edition, files |-> AsSet(x.files)] : x \in AsSet(S.in
 EachOnce == \A x \in AsSet(S.inv) : Len(x.files) = Cardinality(AsSet(x.files))
 
 ModelAgrees == OpInvs = DeclInvs /\ (OpExitNonZero <=> DeclExitNonZero)
-RightTargets == HasObs => ObsInvs = DeclInvs /\ EachOnce /\ Len(S.inv) = Cardinality(ObsInvs)
-RightExit == HasObs => ((S.exit # 0) <=> DeclExitNonZero)
+(* `the current package' is undefined in a directory of the workspace that belongs to no     *)
+(* member (and is not the workspace root): the property names no selection there, so both    *)
+(* outcomes cargo itself knows are accepted -- an error, or every member                      *)
+NoCurrent == S.strategy = "root" /\ S.cwd # S.ws_root /\ Current = {}
+AllInvs == IF TargetsOf(Members) = {} THEN {} ELSE Invs(TargetsOf(Members))
+RightTargets ==
+  HasObs => /\ (ObsInvs = DeclInvs \/ (NoCurrent /\ ObsInvs = AllInvs))
+            /\ EachOnce /\ Len(S.inv) = Cardinality(ObsInvs)
+RightExit ==
+  HasObs => \/ ((S.exit # 0) <=> DeclExitNonZero)
+            \/ (NoCurrent /\ ObsInvs = AllInvs /\ ObsInvs # {}
+                  /\ ((S.exit # 0) <=> \E i \in AllInvs : StatusOf(i.edition) # 0))
 AsModel == HasObs => ObsInvs = OpInvs /\ ((S.exit # 0) <=> OpExitNonZero)
 
 ReportInv ==
